@@ -487,8 +487,26 @@ func (p *Prog) Exec(line string) string {
 			}
 			return retIs(r, v(1))
 		})
-	case "cnil": // a context operation with a nil operand: a non-NaN panic source
-		return p.Op(line, []int{vi(1)}, func() string { return retIs(p.ctx.Add(v(1), nil, v(2)), v(1)) })
+	case "cnil": // cnil z y [method]: a context operation with a nil operand: a non-NaN panic source
+		return p.Op(line, []int{vi(1)}, func() string {
+			m := "add"
+			if len(t) > 3 {
+				m = t[3]
+			}
+			switch m {
+			case "sub":
+				return retIs(p.ctx.Sub(v(1), v(2), nil), v(1))
+			case "mul":
+				return retIs(p.ctx.Mul(v(1), nil, v(2)), v(1))
+			case "quo":
+				return retIs(p.ctx.Quo(v(1), v(2), nil), v(1))
+			case "fma":
+				return retIs(p.ctx.FMA(v(1), v(2), v(2), nil), v(1))
+			case "sqrt":
+				return retIs(p.ctx.Sqrt(v(1), nil), v(1))
+			}
+			return retIs(p.ctx.Add(v(1), nil, v(2)), v(1))
+		})
 	case "cnewint64": // z := ctx.NewInt64(v)
 		return p.Op(line, []int{vi(1)}, func() string { p.vars[vi(1)] = p.ctx.NewInt64(atoi64(t[2])); return "" })
 	case "cnewstring":
